@@ -145,6 +145,15 @@ def arenaAddRow (heap : List Scaffold) (r : Nat) (row : Row) : List Scaffold :=
   | some s => heap.set r { s with rows := s.rows ++ [row] }
   | none => heap
 
+/-- iterating a value that may be None: TypeError -/
+def needIter {α : Type} : Option (List α) → R (List α)
+  | some l => .ok l
+  | none => .error .type
+
+/-- `zip(a, b, strict=True)`: ValueError when the lengths differ -/
+def zipStrict {α β : Type} (a : List α) (b : List β) : R (List (α × β)) :=
+  if a.length = b.length then .ok (a.zip b) else .error .value
+
 /-- `b * n` for a bytes value: `n` copies (none for `n ≤ 0`) -/
 def bytesRepeat (b : List Nat) (n : Int) : List Nat := (List.replicate n.toNat b).flatten
 
